@@ -118,11 +118,16 @@ def cellOk (codec : Nat) (ty : Ty) (lz : Nat) (c : Item) : Bool :=
   | .f32 => codec != 0x07 || c / 2 ^ 23 % 256 != 255
   | .f64 => true
 
+/-- every cell `a[i+k]`, `k < n`, exists and satisfies `p` (structural: `decide` evaluates it) -/
+def cellsAll (p : Item → Bool) (a : Array Item) (i : Nat) : Nat → Bool
+  | 0 => true
+  | n+1 => if h : i < a.size then p a[i] && cellsAll p a (i+1) n else false
+
 /-- THE SIDE CONDITION of C01 on a written stream `w` of caller type `ty` -/
 def losslessFor (g : Geom) (ty : Ty) (w : Array Item) : Bool :=
   match losslessLow g.codec ty with
   | none => false
-  | some lz => w.all (cellOk g.codec ty lz)
+  | some lz => cellsAll (cellOk g.codec ty lz) w 0 w.size
 
 /-! ## what the campaign records -/
 
